@@ -1,7 +1,7 @@
 (* C10 — model of the initialiser calls the code generator emits and of their execution.
    Mirrors compiler.go:189-201 (imported modules compile declarations only), 2278-2303
-   (VisitImportStmt: one init call per not yet imported module, emitted at the current insertion point
-   whenever there is a current function), ast/module.go:47-67 (IterateModuleImports: post-order with a
+   (VisitImportStmt / initImportedModules: one init call per not yet imported module; initNestedImports: the
+   modules of import statements nested in a top-level statement are imported before that statement), ast/module.go:47-67 (IterateModuleImports: post-order with a
    fresh visited set per call), compiler.go VisitVarDecl (global initialisers go to module_init and,
    in the main module, inline into ddp_main).  Definitions only. *)
 From Coq Require Import List NArith Bool.
@@ -111,8 +111,43 @@ Section Compile.
     | y :: t => let '(c', a) := compile_stmt has_cf in_fn y c in let '(c'', b) := compile_stmts has_cf in_fn t c' in (c'', a ++ b)
     end.
 
+  (* initNestedImports: the import statements nested in a top-level statement (in a loop, a branch, a function
+     body), in source order *)
+  Fixpoint nested_imports (x : rstmt) : list (list path) :=
+    match x with
+    | RImport _ ms => [ms]
+    | RDecl _ _ body => (fix go (l : list rstmt) : list (list path) := match l with [] => [] | y :: t => nested_imports y ++ go t end) body
+    | RBlock _ body => (fix go (l : list rstmt) : list (list path) := match l with [] => [] | y :: t => nested_imports y ++ go t end) body
+    | _ => []
+    end.
+
+  (* their modules are imported before the statement: declared, marked, and (main module) initialised *)
+  Definition hoist_step (st : list path * list path) (ms : list path) : list path * list path :=
+    let '(imp, calls) := st in
+    let '(imp', cs) := emit_import G fuel imp ms in (imp', calls ++ cs).
+  Definition hoist (x : rstmt) (c : cstate) : cstate * list instr :=
+    match x with
+    | RImport _ _ => (c, [])
+    | _ =>
+        let visited := if is_main then true else match x with RDecl _ _ _ => true | _ => false end in
+        if visited then
+          let '(imp', calls) := fold_left hoist_step (nested_imports x) (c_imp c, []) in
+          (mkC imp' (c_fns c), if is_main then map ICallInit calls else [])
+        else (c, [])
+    end.
+
+  (* the loop over the top-level statements of compiler.compile *)
+  Fixpoint compile_top (l : list rstmt) (c : cstate) : cstate * list instr :=
+    match l with
+    | [] => (c, [])
+    | y :: t =>
+        let '(c0, h) := hoist y c in
+        let '(c', a) := compile_stmt is_main false y c0 in
+        let '(c'', b) := compile_top t c' in (c'', h ++ a ++ b)
+    end.
+
   Definition compile_module (rs : list rstmt) : cstate * list instr :=
-    compile_stmts is_main false rs (mkC [] []).
+    compile_top rs (mkC [] []).
 End Compile.
 
 (* ---------------------------------------------------------------------------------------------
